@@ -34,9 +34,19 @@ def check(ctx: Ctx) -> None:
     for f in getters:
         rets = [n for n in ast.walk(f.node) if isinstance(n, ast.Return) and n.value is not None]
         P = ctx.eff.paths(f)
+        ctx.an.cfg(f)
         for r in rets:
             v = r.value
             p = P.of(v)
+            if isinstance(v, ast.Call):
+                # the value may come out of a helper spliced into the getter (`return self._room()`): judged on what the helper returns
+                lv = ctx.vals.leaves(f, None, v)
+                if len(lv) == 1 and lv[0][0] is not f and isinstance(lv[0][2], (ast.Attribute, ast.Name)):
+                    fr_, env_, leaf_ = lv[0]
+                    p_ = ctx.eff.paths(fr_).of(leaf_)
+                    p_ = ctx.eff.rebase(p_, fr_, env_) if p_ is not None else None
+                    if p_ is not None:
+                        p, v = p_, leaf_
             if p is not None and isinstance(v, (ast.Attribute, ast.Name)):
                 w = occupancy_writers(ctx, p)
                 rep.ob("R15.1", "pool_size reports the configured maximum, independent of how many tasks are running", not w, func=f,
@@ -66,7 +76,8 @@ def check(ctx: Ctx) -> None:
             reads_self = any(isinstance(n, ast.Attribute) for n in ast.walk(val)) if val is not None else False
             only_param = names <= {vp} and not reads_self and e.kind == "assign"
             if w and only_param:
-                rep.ob("R15.2", "the new maximum is not stored into the free-room counter", False, node=e.node, construct=f"{e.path} = value",
+                # judged on the setter itself (the store may sit in a helper spliced into it)
+                rep.ob("R15.2", "the new maximum is not stored into the free-room counter", False, node=e.node, func=f, construct=f"{e.path} = value",
                        detail=f"{e.path} counts the free room (moved by {sorted({ctx.fname(x.node.func) for x in w})}); overwriting it with the new maximum "
                               "forgets the tasks that are running (limit becomes running + value)")
             elif w:
